@@ -303,6 +303,7 @@ class Session:
         keep_rest = v in ("RETR", "STOR", "APPE")
         if v == "USER":
             self.auth = None
+            self.rnfr = None  # a pending rename belongs to the previous login
             if code == "230":
                 self.auth = ("logged", self.find_user(arg))
             elif code == "331":
